@@ -55,6 +55,7 @@ type bkState struct {
 	// takeover ordering: client id -> done channel of the live connection being taken over
 	tkMu      sync.Mutex
 	takeovers map[string]chan struct{}
+	hostile   map[int]*hostileConn // raw connections (hostile.go)
 }
 
 // yield is installed as mqtt.VerifYield: the new connection's handler waits after its CONNACK until
